@@ -113,6 +113,9 @@ CLAIM = {
 RE = "run_engine.py"
 S = "suspenders.py"
 MUTANTS = [
+    ("the latch is set only after the event could be created (seeds C30-c / C31-c)",
+     [(S, "                self._tripped = True\n                # this does dirty things with internal state\n", "                # this does dirty things with internal state\n"),
+      (S, "                        raise RuntimeError(\"Could not create the \")\n", "                        raise RuntimeError(\"Could not create the \")\n                    self._tripped = True\n")], "C31.D1"),
     ("wait pushed below the plan", [(RE, "        self._plan_stack.append(gen)\n        self._response_stack.append(None)\n        if futs:\n            self._plan_stack.append(single_gen(Msg(\"wait_for\", None, futs)))\n            self._response_stack.append(None)",
                                       "        if futs:\n            self._plan_stack.append(single_gen(Msg(\"wait_for\", None, futs)))\n            self._response_stack.append(None)\n        self._plan_stack.append(gen)\n        self._response_stack.append(None)")], "C31.D1"),
     ("remove forgets the engine before releasing", [(S, "            if self.RE is not None:\n                self.__set_event(self.RE._loop)\n            self.RE = None", "            loop = self.RE._loop if self.RE is not None else None\n            self.RE = None\n            if self.RE is not None:\n                self.__set_event(loop)")], "C31.D2"),
